@@ -228,6 +228,7 @@ fn run(case: &Case, dir: &str) -> Verdict {
         }
     };
     let mut t = 0u32;
+    let mut runaway_stop = false;
     let mut hwm_at_reader_close: Option<(u32, u64)> = None;
     while t < lc.txs {
         // the stretch [t, end) runs on one handle; a reader may be held across part of it
@@ -326,7 +327,18 @@ fn run(case: &Case, dir: &str) -> Verdict {
                 }
             }
             match stat(&path, ps) {
-                Ok(s) => samples.push(s),
+                Ok(s) => {
+                    // a runaway file makes every further step slower: stop as soon as the mark
+                    // is far beyond anything the final bound could allow
+                    let live_so_far = samples.iter().map(|x| x.live).max().unwrap_or(0).max(s.live);
+                    let runaway = s.hwm > 8 * ((lc.chain_life as u64 + 7) * live_so_far + 16);
+                    samples.push(s);
+                    if runaway && reader.is_none() {
+                        t += 1;
+                        runaway_stop = true;
+                        break;
+                    }
+                }
                 Err(e) => {
                     err = Some(fail("fsck", "commit", e));
                     break;
@@ -342,6 +354,9 @@ fn run(case: &Case, dir: &str) -> Verdict {
             db = None;
             let _ = db;
             return v;
+        }
+        if runaway_stop {
+            break;
         }
         if t < lc.txs {
             db = None;
